@@ -27,6 +27,8 @@ type Case struct {
 	Pick      int    `json:"pick"`    // which candidate feature the attempt targets
 	Merged    bool   `json:"merged"`  // wrap in a MergedChange with valid parts around it
 	FailAt    int    `json:"fail_at"` // position of the failing part in the merged change
+	FailPart  string `json:"fail_part,omitempty"` // merged only: "" = the invalid replacement, addtags-missing / removetags-missing = tag parts naming a feature that is not in the world
+	FailKey   string `json:"fail_key,omitempty"`
 }
 
 var families = []string{"shorten-open", "open-closed", "reverse-closed", "missing-point", "area-missing-path", "shorten-closed"}
@@ -42,6 +44,10 @@ func gen(t *rapid.T) Case {
 		Pick:      rapid.IntRange(0, 20).Draw(t, "pick"),
 		Merged:    rapid.IntRange(0, 3).Draw(t, "merged") == 0,
 		FailAt:    rapid.IntRange(0, 3).Draw(t, "failat"),
+	}
+	if c.Merged {
+		c.FailPart = rapid.SampledFrom([]string{"", "", "addtags-missing", "removetags-missing"}).Draw(t, "failpart")
+		c.FailKey = rapid.SampledFrom(keys).Draw(t, "failkey")
 	}
 	// choose among the families the generated set has a candidate for
 	var available []string
@@ -225,6 +231,7 @@ func check(c Case) vlib.Outcome {
 	before := wm.Observe(w, probes, queries, wm.ObserveOptions{})
 	var err error
 	what := fmt.Sprintf("AddFeature(%s replacement of %v)", c.Attempt, target)
+	at := 0
 	if c.Merged {
 		newPoint := wm.FeatureS{ID: wm.FID{T: 0, NS: string(b6.NamespaceOSMNode), V: 999001}, Point: &wm.LL{Lat: 515500000, Lng: -1400000}, Tags: []wm.TagS{{K: "#amenity", V: "cafe"}}}
 		first := c.Set.Features[0].ID.ID()
@@ -233,21 +240,36 @@ func check(c Case) vlib.Outcome {
 			&ingest.AddFeatures{wm.ToIngest(newPoint)},
 			ingest.RemoveTags{{ID: first, Key: "name"}},
 		}
-		failing := &ingest.AddFeatures{wm.ToIngest(*spec)}
+		var failing ingest.Change = &ingest.AddFeatures{wm.ToIngest(*spec)}
+		absent := b6.FeatureID{Type: b6.FeatureTypePoint, Namespace: b6.NamespaceOSMNode, Value: 999777}
+		part := c.Attempt + " replacement of " + target.String()
+		switch c.FailPart {
+		case "":
+		case "addtags-missing":
+			// a second, present, feature follows the absent one
+			failing = ingest.AddTags{{ID: absent, Tag: b6.Tag{Key: c.FailKey, Value: b6.NewStringExpression("x")}}, {ID: first, Tag: b6.Tag{Key: c.FailKey, Value: b6.NewStringExpression("y")}}}
+			part = "AddTags " + c.FailKey + " on an absent feature"
+		case "removetags-missing":
+			failing = ingest.RemoveTags{{ID: absent, Key: c.FailKey}, {ID: first, Key: c.FailKey}}
+			part = "RemoveTags " + c.FailKey + " on an absent feature"
+		default:
+			return vlib.Outcome{Skip: true}
+		}
+		probes = append(probes, absent)
 		var merged ingest.MergedChange
-		at := c.FailAt % (len(valid) + 1)
+		at = c.FailAt % (len(valid) + 1)
 		merged = append(merged, valid[:at]...)
 		merged = append(merged, failing)
 		merged = append(merged, valid[at:]...)
 		probes = append(probes, newPoint.ID.ID())
 		before = wm.Observe(w, probes, queries, wm.ObserveOptions{})
 		_, err = merged.Apply(w)
-		what = fmt.Sprintf("MergedChange with %d parts whose part %d is a %s replacement of %v", len(merged), at, c.Attempt, target)
+		what = fmt.Sprintf("MergedChange with %d parts whose part %d is %s", len(merged), at, part)
 	} else {
 		err = w.AddFeature(wm.ToIngest(*spec))
 	}
 	if err == nil {
-		return vlib.Outcome{Classes: []string{"accepted:" + c.Attempt}}
+		return vlib.Outcome{Classes: []string{"accepted:" + c.Attempt + c.FailPart}}
 	}
 	after := wm.Observe(w, probes, queries, wm.ObserveOptions{})
 	if d := wm.Diff(before, after, "before", "after "); d != "" {
@@ -258,11 +280,14 @@ func check(c Case) vlib.Outcome {
 	if c.Merged {
 		out.Classes = append(out.Classes, "merged")
 	}
+	if c.Merged && c.FailPart != "" {
+		out = vlib.Outcome{NonTrivial: at > 0, Classes: []string{"rejected:merged-" + c.FailPart, "world=" + c.WorldKind, "merged"}}
+	}
 	return out
 }
 
 func TestProp(t *testing.T) {
 	vlib.Run(t, vlib.Config{ID: "C13", Name: "rejected-change", CaseTimeout: 60e9,
-		Rule: "a generated valid world (points, open paths, closed paths, areas over them, relations) held in a BasicMutableWorld or a MutableOverlayWorld over a basic base; 0-6 valid prefix edits (tag edits, re-adding a feature so it is copied into the edited layer); then one attempt from the families path shortened to one point, closed path under an area opened, closed path reversed, path over a missing point, area over a missing path, closed path under an area shortened to two points - alone or as the k-th part of a MergedChange among valid tag and feature parts; oracle: if the call returns an error a snapshot of every read query (lookup, tags, geometry, searches, references, traversal, enumeration) is unchanged; non-trivial = rejected and the target already lives in the layer being edited"},
+		Rule: "a generated valid world (points, open paths, closed paths, areas over them, relations) held in a BasicMutableWorld or a MutableOverlayWorld over a basic base; 0-6 valid prefix edits (tag edits, re-adding a feature so it is copied into the edited layer); then one attempt from the families path shortened to one point, closed path under an area opened, closed path reversed, path over a missing point, area over a missing path, closed path under an area shortened to two points - alone or as the k-th part of a MergedChange among valid tag and feature parts, where the failing part may instead be an AddTags or RemoveTags naming a feature that is not in the world; oracle: if the call returns an error a snapshot of every read query (lookup, tags, geometry, searches, references, traversal, enumeration) is unchanged; non-trivial = rejected and the target already lives in the layer being edited, or a failing tag part with applied parts before it"},
 		gen, check)
 }
